@@ -377,3 +377,21 @@ REG.contract(
         ("link.only", "same(sigma('link'), link_set(old(sigma('link')), %s, iid, old(obj(item))))" % BK, "prop")],
     prop_clauses=["link.same", "link.only", "raises-iff:TypeError", "raises-only:TypeError", "raises-iff:RuntimeError",
                   "raises-only:RuntimeError"])
+
+
+# ---- C04: clearing a metadata link unlinks exactly that link - never the owning entity -----------------------------------------------------
+for _mod, _cls in (("block", "Block"), ("data_array", "DataArray"), ("group", "Group"), ("multi_tag", "MultiTag"),
+                   ("source", "Source"), ("tag", "Tag")):
+    REG.contract(
+        "nixio.%s.%s.metadata.deleter" % (_mod, _cls), props=["C04", "C02"],
+        params=dict(self=Obj(_cls)), modifies=["link", "ord"],
+        raises={"KeyError": ("False", "helper"), "ValueError": ("False", "helper")},
+        let="had = link(obj(self), 'metadata') != 0",
+        ensures=[("md.none", "(not had) implies (n_calls('H5Group.delete') == 0 and unchanged('link') and unchanged('ord'))", "prop"),
+                 # the one link is removed WITHOUT the delete-if-empty clean-up (which would unlink the entity itself
+                 # from its container when `metadata` was its only child)
+                 ("md.only", "had implies (n_calls('H5Group.delete') == 1 and arg_of('H5Group.delete', 'id_or_name') == 'metadata' "
+                             "and (not arg_of('H5Group.delete', 'delete_if_empty')) and "
+                             "arg_of('H5Group.delete', 'self') == field(self, '_h5group'))", "prop"),
+                 ("md.nosweep", "n_calls('delete_all') == 0", "prop")],
+        prop_clauses=["md.none", "md.only", "md.nosweep"])
